@@ -208,7 +208,7 @@ def run(name, n=2000, seed=0, umodel=None, verbose=True):
     for (a, b), ans in zip(pairs, out[len(strings):]):
         impl = impl_cmp(name, a, b, rawf)
         stats["cmp"] += 1
-        if impl == "invalid":
+        if impl == "invalid" or impl.startswith("raise:"):
             stats["cmp_invalid"] += 1
         elif impl.split(" ")[1][0] == "1":
             stats["cmp_eq"] += 1
